@@ -20,13 +20,16 @@ func (t *BTree) VerifCheck() error {
 	var count = 0
 	var leafDepth = -1
 	var prev Item
+	// the bounds of a B-tree of minimum degree d, stated here on their own (not through the tree's maxItems/minItems,
+	// which are part of what is being checked): at most 2d-1 items per node, at least d-1 in every node but the root
+	var maxI, minI = 2*t.degree - 1, t.degree - 1
 	var walk func(n *node, depth int, isRoot bool) error
 	walk = func(n *node, depth int, isRoot bool) error {
-		if len(n.items) > t.maxItems() {
-			return fmt.Errorf("node at depth %d holds %d items, maximum is %d", depth, len(n.items), t.maxItems())
+		if len(n.items) > maxI {
+			return fmt.Errorf("node at depth %d holds %d items, maximum is %d", depth, len(n.items), maxI)
 		}
-		if !isRoot && len(n.items) < t.minItems() {
-			return fmt.Errorf("node at depth %d holds %d items, minimum is %d", depth, len(n.items), t.minItems())
+		if !isRoot && len(n.items) < minI {
+			return fmt.Errorf("node at depth %d holds %d items, minimum is %d", depth, len(n.items), minI)
 		}
 		if isRoot && len(n.items) == 0 && len(n.children) > 0 {
 			return fmt.Errorf("empty root that still has children")
